@@ -59,7 +59,7 @@ FIRST_CONTACT_R7C = {
     "C01-r7C": "C08 (wrong reason; now undecided)", "C02-r7C": "C02 (wrong reason; now undecided)", "C03-r7C": "none (undecided)", "C04-r7C": "C04 C05 C16", "C05-r7C": "C04 C05 C16",
     "C06-r7C": "C03 C06 C08 (C08 for a wrong reason; now C03 C06)", "C07-r7C": "C06 C07 (C06 for a wrong reason; now C07)", "C08-r7C": "C03 C08", "C09-r7C": "C08 only - C09 was silent (cache served through get())",
     "C10-r7C": "none (undecided)", "C11-r7C": "none (undecided)", "C12-r7C": "none (undecided)", "C13-r7C": "none (undecided)", "C14-r7C": "C13 C14 (both for wrong reasons; now C14 for the slip)",
-    "C15-r7C": "C01 (wrong reason; now undecided)", "C16-r7C": "none (undecided)", "C17-r7C": "C07 C17 (C07 for a wrong reason; now C17)", "C18-r7C": "C18", "C19-r7C": "C19",
+    "C15-r7C": "C01 (wrong reason; now C15 for the slip)", "C16-r7C": "none (undecided)", "C17-r7C": "C07 C17 (C07 for a wrong reason; now C17)", "C18-r7C": "C18", "C19-r7C": "C19",
     "C20-r7C": "C08 C20 (both for wrong reasons; now C20.4 for the slip)",
 }
 FIRST_CONTACT_R6C = {
